@@ -88,6 +88,7 @@ func checkPlanMore(prop, tier string, n func(int, int) int, comp map[string][]st
 				{Label: "race-gomaxprocs1", Engine: "sched", Prop: "C10", Mode: "free", Race: true, MaxProcs: 1, Runs: n(20, 150), FaultFree: true},
 				{Label: "race-gomaxprocs4", Engine: "sched", Prop: "C10", Mode: "free", Race: true, MaxProcs: 4, Runs: n(24, 150), FaultFree: true},
 				{Label: "race-gomaxprocs16", Engine: "sched", Prop: "C10", Mode: "free", Race: true, MaxProcs: 16, Runs: n(30, 200), FaultFree: true},
+				{Label: "race-jitter", Engine: "sched", Prop: "C10", Mode: "freejit", Race: true, Bin: "fgrace", MaxProcs: 8, Runs: n(0, 160), FaultFree: true},
 				{Label: "race-gomaxprocs64", Engine: "sched", Prop: "C10", Mode: "free", Race: true, MaxProcs: 64, Runs: n(12, 100), FaultFree: true},
 			},
 			Rule: "sched batch: one run = 2-8 simulated clients (real goroutines), each with a seeded list of Lint*Ex (own parsed objects), Filter, Names, Sources, ByName, BySource, WriteJSON, DefaultConfiguration and per-kind lookups over 1-4 shared registries (global and pre-filtered, with different configurations naming every configurable lint); exactly one client runs at a time and a seeded schedule (round-robin, Bernoulli p in {0.01,0.1,0.5}, PCT depth 1-5, or targeted: every client parked at the same lifecycle phase of the same lint) decides at every yield site (lint constructor, Configure, CheckApplies, Execute, registry reads) who runs next; every op's result must equal the serial twin's (same op lists, client after client, in a fresh process). race batches: the same kind of workload with 4-16 free-running clients under the Go race detector at GOMAXPROCS 1/4/16 and 64 (more processors than the machine has) (race report, runtime fatal error, deadlock or mismatch with the serial twin = violation). distinct_nontrivial = distinct schedules with at least one preemption inside a Lint op while the resumed client is also inside a Lint op.",
